@@ -307,7 +307,7 @@ func Array[V any](arguments ...any) col.ArrayLike[V] {
 		// Convert the values to their real type.
 		size = uint(collection.GetSize())
 		array = class.Make(size)
-		var index int = 0
+		var index int = 1 // Array indices are ordinals, they start at one.
 		var iterator = collection.GetIterator()
 		for iterator.HasNext() {
 			var value = iterator.GetNext().(V)
